@@ -346,7 +346,8 @@ def check(pid, tier, seed):
                 seen_known.setdefault(fid, of)
                 continue
             name = "fail_%d.json" % of["case_id"]
-            p = keep_replay(pid, of["file"], name) if os.path.exists(of["file"]) else of["file"]
+            nfail = len([v for v in violations if v[1] == ""])
+            p = keep_replay(pid, of["file"], name) if (nfail < 3 and os.path.exists(of["file"])) else os.path.join(OUT, pid, name)
             violations.append((p, ""))
         # every open finding must still reproduce through its committed witness; report it once
         for fid, f in open_ids.items():
@@ -403,7 +404,10 @@ def check(pid, tier, seed):
         if p in seen:
             continue
         seen.add(p)
-        print("VIOLATION property=%s replay=%s%s" % (pid, p, suffix))
+        if len(seen) <= 3:
+            print("VIOLATION property=%s replay=%s%s" % (pid, p, suffix))
+    if len(seen) > 3:
+        log("(%d further violations not printed; see evidence)" % (len(seen) - 3))
     cov = dict(
         obligations=max(proof["obligations"], 1), discharged=proof["discharged"],
         checker_cmd=proof["checker_cmd"] or "make (not run)",
@@ -421,6 +425,8 @@ def check(pid, tier, seed):
     )
     cov.update(summary.get("extra") or {})
     cov.update(extra_cov)
+    if not proof["ok"]:
+        cov.pop("discharged", None)
     if cfg["level"] == "other":
         cov["explanation"] = cfg.get("explanation", "")
     ev = dict(property_id=pid, tier=tier, seed=seed, level=cfg["level"], coverage=cov,
